@@ -296,6 +296,9 @@ func C17(r *eng.Run) {
 		return
 	}
 	shapes := Shapes(r.Thorough())
+	if !r.Thorough() {
+		shapes = dedupe(append(shapes, WordShapes()...))
+	}
 	small := SmallShapes()
 	t0 := time.Now()
 	// every exponent for the small set
@@ -330,7 +333,11 @@ func C17(r *eng.Run) {
 	for _, c := range LeadSweep(nl) {
 		for _, q := range []int{-34, -33, -32, -2, -1, 0, 1, 2, 3} {
 			jobs = append(jobs, job{c, q})
-			jobs = append(jobs, job{new(big.Int).Add(new(big.Int).Mul(c, ref.Pow10(32)), big.NewInt(1)), q - 32})
+			if long := new(big.Int).Add(new(big.Int).Mul(c, ref.Pow10(32)), big.NewInt(1)); long.Cmp(ref.Cmax) <= 0 {
+				jobs = append(jobs, job{long, q - 32})
+			} else {
+				jobs = append(jobs, job{new(big.Int).Add(new(big.Int).Mul(c, ref.Pow10(31)), big.NewInt(1)), q - 31})
+			}
 		}
 	}
 	r.Bounds["finite_arguments"] = len(jobs)
